@@ -231,6 +231,37 @@ def check_costs(res, rng, reps):
     from clifford import taylor_expansions as te
     site = dict(module='tools.g3c.cost_functions')
     one = 1 + 0 * t.e1
+    # a set compared with itself (the same list object on both sides, as scene simplification and clustering do) that mixes real and imaginary
+    # rounds of one grade and an unnormalised object: the cost of the rotor from a to b is then not the cost from b to a, every entry is still
+    # the element-wise cost
+    with common.guard(res, 'cost matrix of a set with itself', site):
+        from clifford.g3c import e1 as e1_, e2 as e2_, einf as ninf_, up as up_
+        I5_ = t.I5 if hasattr(t, 'I5') else t.layout.pseudoScalar
+
+        def sph(c, r):
+            return (I5_ * (up_(c) - 0.5 * r * r * ninf_)).normal()
+        S1, S2, S3 = sph(0 * e1_, 1.0), sph(1.25 * e1_ + 0.25 * e2_, 1.0), sph(3.0 * e1_, 1.0)
+        objs = [t.meet(S1, S2).normal(), t.meet(S1, S3).normal(), t.random_circle(rng=np.random.default_rng(5)), 2.0 * t.random_circle(rng=np.random.default_rng(6))]
+        for symm in (False, True):
+            ref = np.array([[cfn.object_cost_function(a, b, symmetric=symm) for b in objs] for a in objs])
+            for how, other in (('same list', objs), ('copied list', list(objs))):
+                res.case(('cost-matrix-self', symm, how), nontrivial=True)
+                res.count('cost_matrix_self')
+                Mx = np.array(cfn.object_set_cost_matrix(objs, other, symmetric=symm), dtype=float)
+                if symm:
+                    # the symmetric cost of an object with itself involves the antipodal pair (X, -X), for which no rotor is defined
+                    # (excluded in C13; the two implementations order a NaN differently in their minimum): the diagonal is not compared
+                    Mx = Mx.copy()
+                    np.fill_diagonal(Mx, 0.0)
+                    ref = ref.copy()
+                    np.fill_diagonal(ref, 0.0)
+                if not near(Mx, ref, mag(ref), 1e-9):
+                    res.violate('cost matrix of a set with itself is not the element-wise cost', dict(site, symmetric=symm, lists=how), np.asarray(Mx).tolist(), ref.tolist(),
+                                dict(site, op='cost-matrix-self', symmetric=symm))
+        ref = np.array([[cfn.object_cost_function(a, b) for b in objs] for a in objs])
+        if not near(cfn.object_set_cost_matrix_sum(objs, objs), ref.sum(), float(abs(ref.sum())) + 1.0, 1e-9):
+            res.violate('cost matrix sum of a set with itself is not the sum of the element-wise costs', dict(site), float(cfn.object_set_cost_matrix_sum(objs, objs)), float(ref.sum()),
+                        dict(site, op='cost-matrix-self-sum'))
     res.case(('rotor_cost-identity',))
     if cfn.rotor_cost(one) != 0:
         res.violate('rotor_cost(1) != 0', site, cfn.rotor_cost(one), 0, dict(site, op='rotor_cost'))
